@@ -142,9 +142,8 @@ func zzMakeVisitor(form int, policy map[int]int, rec *[]zzEv, recParams *[]Visit
 			*recParams = append(*recParams, cp)
 			switch policy[idx] {
 			case zzActSkip:
-				if !leave {
-					return ActionSkip, nil
-				}
+				// on leave there is no subtree left to skip: it must have no effect
+				return ActionSkip, nil
 			case zzActBreak:
 				return ActionBreak, nil
 			}
@@ -220,7 +219,7 @@ func ZZ_C14_visit() {
 		pos := zzChoice("pos"+zzKeyStr(a), n+1)
 		if pos < n {
 			act := zzActBreak
-			if !base.events[pos].leave && zzChoice("act"+zzKeyStr(a), 2) == 0 {
+			if zzChoice("act"+zzKeyStr(a), 2) == 0 {
 				act = zzActSkip
 			}
 			policy[pos] = act
@@ -251,7 +250,7 @@ func ZZ_C14_parallel() {
 		pos := zzChoice("pos"+tag, n+1)
 		if pos < n {
 			act := zzActBreak
-			if !base.events[pos].leave && zzChoice("act"+tag, 2) == 0 {
+			if zzChoice("act"+tag, 2) == 0 {
 				act = zzActSkip
 			}
 			policy[pos] = act
